@@ -62,6 +62,7 @@ def run(ctx, chk):
     r_wb = chk.rule("C01.R6", "CMP writes no destination; other productions write only their destination", floor=30)
     r_ab = chk.rule("C01.R7", "no abort site in the arithmetic helpers / actions can fail", floor=10)
     chk.rule("C01.R8", "byte and word helper of a mnemonic compute every flag from the same expression (no dropped operand)", floor=25)
+    chk.rule("C01.R9", "the zero test is made on the stored result (or on a wider value that cannot be a non-zero multiple of 2^width)", floor=8)
     sibling_rule(ctx, chk)
 
     tabs = {}
@@ -125,6 +126,12 @@ def run(ctx, chk):
             s.flag = flagv
             check_flags(chk, "C01.R1", "C01.R2", unit, s.flag, sp["written"], sp.get("undefined", ()), (),
                         sp.get("preserved", ()), self_dep_ok=(("CF", "PF", "AF", "ZF", "SF", "OF") if carry_in else ()), where=where)
+            if carry_in:
+                # one run per incoming carry: the intermediate keeps its exact affine form in each partition
+                for cv in (0, 1):
+                    zero_test_rule(ctx, chk, f"{unit}[CF={cv}]", fn, summarize_fn(ctx, fn, assume={("flag", FBIT["CF"]): cv}), width, where, key_unit=unit)
+            else:
+                zero_test_rule(ctx, chk, unit, fn, s, width, where)
             # INC/DEC: CF preserved is part of R2's statement
             ch = changed_regs(s)
             mw = mem_written(s)
@@ -284,3 +291,106 @@ def sibling_rule(ctx, chk):
             chk.violation("C01.R8", m, f"{kind}-{what}-differs:{x}/{y}", f"byte_{m} and word_{m} differ in exactly one {what} of a {kind} expression (byte: {x}, word: {y})", where)
         else:
             chk.undecided_("C01.R8", f"{m}:fingerprint", "formulated differently")
+
+
+def zero_test_rule(ctx, chk, unit, fn, s, width, where, key_unit=None):
+    """C01.R9.  ZF must say whether the *stored* w-bit result is zero.  The helpers hand a bool `zero` to a flag-setting
+    routine; V knows the comparison that produced it (x == 0).  If x is the result itself (same bits) the clause holds.
+    If x is a wider intermediate whose low w bits are the result, `x == 0` differs from `result == 0` exactly when x is a
+    non-zero multiple of 2^w: decided on x's interval -- DEFINITE when x is exact (its interval comes from an affine form
+    of independent inputs), e.g. op1 - op2 - borrow = -65536 for 0 - FFFFh - 1."""
+    P = ctx.program
+    tests = []
+    for e in s.I.events:
+        if e.kind != "call" or not getattr(e, "fref", None):
+            continue
+        name = e.fref.get("def") or ""
+        callee = P.fns.get(e.fref.get("id"))
+        if callee is None or not name.startswith("instructions::"):
+            continue
+        zero = None
+        for i, a in enumerate(e.args):
+            if a.kind == "agg" and P.adts.get(str(a.name)):
+                names = [f[0] for f in P.adts[str(a.name)]["variants"][0]["fields"]]
+                if "zero" in names and len(a.fields) == len(names):
+                    zero = a.fields[names.index("zero")]
+            elif a.kind == "int" and a.ty == "bool" and i + 1 < len(callee["locals"]) and callee["locals"][i + 1].get("name") == "zero":
+                zero = a
+        if zero is not None:
+            tests.append(zero)
+    if not tests:
+        return
+    # which value is the stored result?  decided on symbolic terms of the helper's own MIR (joins inside the flag
+    # routine blur the abstract value of the returned local, its term stays what it was assigned)
+    from symterm import SymFlow, strip as tstrip
+    import mir as M
+    F = SymFlow(fn)
+    entry, _, _ = F.run(0)
+    ret_terms = set()
+    for bi, bb in enumerate(fn["blocks"]):
+        if bi in entry and M.term(bb)[0] == "return":
+            env = F.step_stmts(entry[bi], bi)
+            if 0 in env:
+                ret_terms.add(env[0])
+            for k_, v_ in env.items():
+                if isinstance(k_, tuple) and k_[0] == "*":
+                    ret_terms.add(v_)
+    zero_terms = []
+    for bi, t in M.calls_in(fn):
+        if bi not in entry:
+            continue
+        callee = P.fns.get(t[1].get("id"))
+        if callee is None:
+            continue
+        for i, a in enumerate(F.call_args(entry[bi], bi)):
+            a = tstrip(a)
+            if a[0] == "agg" and P.adts.get(str(a[1])):
+                names = [f[0] for f in P.adts[str(a[1])]["variants"][0]["fields"]]
+                if "zero" in names and len(a[3]) == len(names):
+                    zero_terms.append(a[3][names.index("zero")])
+            elif i + 1 < len(callee["locals"]) and callee["locals"][i + 1].get("name") == "zero":
+                zero_terms.append(a)
+
+    def same_value(tx):
+        """'same' if the tested term is a stored result, 'wider' if a stored result is a truncating cast of it"""
+        for r_ in ret_terms:
+            r0 = r_
+            if r0 == tx:
+                return "same"
+            while r0[0] == "cast":
+                r0 = r0[2]
+                if r0 == tx:
+                    return "wider"
+        return None
+    rel = None
+    for zt in zero_terms[:1]:
+        if zt[0] == "bin" and zt[1] in ("Eq", "Ne") and ("const", 0) in (zt[2], zt[3]):
+            tx = zt[3] if zt[2] == ("const", 0) else zt[2]
+            rel = same_value(tx)
+    for z in tests[:1]:
+        pr = z.pred
+        if not pr or pr[0] != "cmp" or pr[1] not in ("Eq", "Ne") or not (pr[3].kind == "int" and pr[3].is_const() and pr[3].lo == 0):
+            chk.undecided_("C01.R9", unit, "the zero flag's condition is not a comparison with 0")
+            continue
+        x = pr[2]
+        if x.kind != "int":
+            chk.undecided_("C01.R9", unit, "tested value not an integer")
+            continue
+        if rel is None:
+            chk.undecided_("C01.R9", unit, "the tested value is not visibly the stored result")
+            continue
+        if rel == "same" or x.w <= width:
+            chk.ok("C01.R9", unit, f"ZF <- ({x.ty} result == 0)")
+            continue
+        mod = 1 << width
+        k_lo, k_hi = -((-x.lo) // mod), x.hi // mod
+        ks = [k for k in range(k_lo, k_hi + 1) if k != 0][:3]
+        if not ks:
+            chk.ok("C01.R9", unit, f"ZF <- ({x.ty} intermediate == 0); its range [{x.lo},{x.hi}] contains no non-zero multiple of 2^{width}")
+        elif x.exact:
+            chk.violation("C01.R9", key_unit or unit, "zf-from-untruncated-value",
+                          f"{fn['name']} computes ZF from the {x.w}-bit intermediate {x.aff.pretty() if x.aff is not None else ''} instead of the stored {width}-bit result: "
+                          f"for the value {ks[0] * mod} the result is 0 but ZF stays clear", where,
+                          witness=f"intermediate = {ks[0] * mod} (range [{x.lo},{x.hi}])")
+        else:
+            chk.undecided_("C01.R9", unit, f"wide intermediate with range [{x.lo},{x.hi}] (not exact)")
